@@ -836,6 +836,27 @@ pub fn gen_clifprobe(w: &mut impl Write, thorough: bool, seed: u64) {
     let mut k = 0u64;
     with_suffix(w, |b| gen_memprobe(b, thorough, seed), &mut |l| { k += 1; if l.contains("arange=") && l.contains("extra0") { return None; }
         if thorough || k % 4 == 0 { Some("engines=clif force=clif kind=mbuff".into()) } else { None } });
+    // two accesses through the same base register and offset inside one basic block, the first narrow and inside the region, the second
+    // wider and crossing its end (a bounds check that is cached per (base, offset) and forgets the width lets the second one through);
+    // every pairing of load / store-immediate / store-register / atomic add, at the end of packet, metadata buffer and stack
+    let w8: [(u8, u8, u8, i64); 4] = [(0x71, 0x72, 0x73, 1), (0x69, 0x6a, 0x6b, 2), (0x61, 0x62, 0x63, 4), (0x79, 0x7a, 0x7b, 8)];
+    let mem = pattern(8, 31); let mb = pattern(16, 33);
+    for (rname, len) in [("mem", 8i64), ("mbuff", 16), ("stack", 512)] { for &(ldx1, st1, stx1, wn) in &w8 { for &(ldx2, st2, stx2, ww) in &w8 {
+        if ww <= wn { continue; }
+        for k1 in 0..3 { for k2 in 0..4 { for off in [0i16, 24, -8] {
+            if k2 == 3 && ww < 4 { continue; }
+            let target = len - wn;                       // the narrow access ends exactly at the region's end
+            let mut p = vec![]; init_regs(&mut p);
+            let patch;
+            if rname == "stack" { p.extend(ins(0xbf, 6, 10, 0, 0)); p.extend(ins(0x07, 6, 0, 0, (-512 + target - off as i64) as i32)); patch = "-".to_string(); }
+            else { p.extend(lddw(6, 0)); patch = format!("{}:{}:{}", p.len() / 8 - 2, rname, target - off as i64); }
+            match k1 { 0 => p.extend(ins(ldx1, 2, 6, off, 0)), 1 => p.extend(ins(st1, 6, 0, off, 0x11)), _ => p.extend(ins(stx1, 6, 3, off, 0)) }
+            match k2 { 0 => p.extend(ins(ldx2, 0, 6, off, 0)), 1 => p.extend(ins(st2, 6, 0, off, 0x22)), 2 => p.extend(ins(stx2, 6, 3, off, 0)),
+                       _ => p.extend(ins(if ww == 4 { 0xc3 } else { 0xdb }, 6, 3, off, 0)) }
+            p.extend(ins(0xb7, 6, 0, 0, 0)); fold_exit(&mut p);
+            writeln!(w, "exec tag=memprobe prog={} mem={} mbuff={} patch={} budget=300 engines=clif force=clif kind=mbuff", hex(&p), hex(&mem), hex(&mb), patch).unwrap();
+        } } }
+    } } }
 }
 
 /// C12 (model validation): arbitrary whole-slot byte strings of the verify suite, loaded through an accept-all verifier and only compiled:
